@@ -286,10 +286,14 @@ def session_after_shutdown(exe):
     c.wait(2, 20)
     c.request(3, "textDocument/hover", HOVER)
     c.request("s4", "workspace/symbol", {"query": "x"})
+    c.request(5, "shutdown", None)           # a client that retries its shutdown
+    c.request("s6", "shutdown", None)
     c.wait(3, 5)
     c.wait("s4", 5)
+    c.wait(5, 5)
+    c.wait("s6", 5)
     time.sleep(0.3)
-    out = {str(i): len(c.responses(i)) for i in (0, 1, 2, 3, "s4")}
+    out = {str(i): len(c.responses(i)) for i in (0, 1, 2, 3, "s4", 5, "s6")}
     c.notify("exit", None)
     time.sleep(0.3)
     c.stop()
